@@ -38,6 +38,9 @@ CLAIMED = {
  "C12": ("affine (linear-equality) width domain with path facts and a bound-substitution prover, loop invariant checking, contracts verified on callees, event language of the row builder, guard / def-use rules",
          "Decides rectangularity and separator alignment as linear identities over symbolic column widths on every path: each of the eight kinds of emitted line has width sum(w)+n+1; fit_to_width and resize_chunks_list return exactly the requested width (the truncation loop by a checked invariant; preconditions such as width-min(3,width) >= 0 by bound substitution); cells are fitted to their column's width over the one column list; rows are SEP CELL (SEP CELL)* SEP under a '+'('-'*w '+')* border; widths stay within their bounds; record accounting under limits (tail-slice pitfall, overlap-free limit condition, skipped count) and absence of in-place mutation of possibly shared lists.",
          "Assumes n >= 1 columns and non-negative widths. Which characters a cell shows (prefix + dots vs full value) is decided only as widths, not content; enum length cache vs text is not compared (every cell is re-fitted to the column width).", "3/C12"),
+ "C08": ("who-may-write over the whole package, event-language pairing on the CFG of _append_chunk, def-use in make/_merge_chunks, self-aliasing rule on loops, call-graph funnel rule",
+         "Decides the representation invariant on which ==, len() and rendering rely, for every sequence of operations: chunk list and cached length are written only inside the three funnel functions, every path of the append primitive mutates list and length exactly once (or neither, for empty text) and merges exactly same-coloured neighbours in order, make() stores the merged list and a length computed from that same list, no loop iterates a container that its body grows when the two may be the same object (t += t), and every text returned by a public operation is built through the funnel.",
+         "Index / slice / fixed_len / format arithmetic (offsets, negative and out-of-range bounds) is value-level and NOT decided; a defect there is invisible to this check.", "3/C08"),
 }
 
 NOT_APPLICABLE = {
